@@ -27,7 +27,8 @@ type shape struct {
 	elem    *shape
 	elemNul bool
 	members []member
-	enum    map[string]interface{} // member name -> representation (string or int64)
+	enum    map[string]interface{}         // member name -> representation (string or int64)
+	conv    func(v reflect.Value) *model.V // a Go type bound through a custom converter: what it stands for
 }
 type fld struct {
 	name, rename       string
@@ -74,7 +75,27 @@ var (
 	fiveOpt = []fld{fo("A", shInt), fo("B", shInt), fo("C", shInt), fo("D", shInt), fo("E", shInt)}
 )
 
+var (
+	shCelsius = &shape{kind: "int", conv: func(v reflect.Value) *model.V { return model.IntV(v.FieldByName("Milli").Int()) }}
+	shTag     = &shape{kind: "string", conv: func(v reflect.Value) *model.V {
+		var parts []string
+		for i, p := 0, v.FieldByName("Parts"); i < p.Len(); i++ {
+			parts = append(parts, p.Index(i).String())
+		}
+		return model.StringV(strings.Join(parts, "/"))
+	}}
+	shBlob = &shape{kind: "bytes", conv: func(v reflect.Value) *model.V {
+		h := v.FieldByName("Hex").String()
+		b := make([]byte, len(h)/2)
+		for i := range b {
+			fmt.Sscanf(h[2*i:2*i+2], "%02x", &b[i])
+		}
+		return model.BytesV(b)
+	}}
+)
+
 var shapes = map[string]*shape{
+	"Conv":     stc("map", fd("T", shCelsius), fo("OT", shCelsius), fn("NT", shCelsius), fd("G", shTag), fd("B", shBlob), fd("L", lst(shCelsius, false))),
 	"Simple":   shSimple,
 	"Widths":   stc("map", fd("I8", shInt), fd("I16", shInt), fd("I32", shInt), fd("I64", shInt), fd("U8", shInt), fd("U16", shInt), fd("U32", shInt), fd("U64", shInt), fd("I", shInt), fd("U", shInt)),
 	"Opt":      stc("map", fo("A", shStr), fn("B", shInt), fd("C", shStr)),
@@ -119,6 +140,9 @@ var (
 // expectV: the abstract value a view of Go value v must expose. ok=false means
 // "this value is absent" (only for nil pointers the caller treats as optional).
 func expectV(v reflect.Value, sh *shape, repr bool) *model.V {
+	if sh.conv != nil {
+		return sh.conv(v)
+	}
 	switch sh.kind {
 	case "string":
 		return model.StringV(v.String())
